@@ -12,7 +12,9 @@ META = {
     "connected, UCMM (route_path=False) and Unconnected Send; route_path True / str / segment list / encoded bytes with 0-3 "
     "hops and driver routes of 0-3 hops; reply data of every length 0..64 raw or decoded with UINT/STRING/Struct; reply "
     "status ok / error with and without extended status. Helpers get_plc_name, get_plc_info, get_module_info(slot 0..16), "
-    "get_plc_time, set_plc_time over 64-bit boundary values. Oracle: (transport, service, path, data, route) logged by the "
+    "get_plc_time, set_plc_time over 64-bit boundary values. Histories (E2): every sequence of 2 (thorough 3) operations out of 13 "
+    "(4 generic_message transports, get_module_info 0/3/16, plc name/info, get/set time, close+open) on drivers with 0-, 1- and 3-hop routes; "
+    "what the target is asked by the last operation, the Forward Opens/connection routes and the result must equal those of the same operation alone. Oracle: (transport, service, path, data, route) logged by the "
     "target == requested; returned value == reply bytes / reference decode; refused -> falsy Tag with the status text. "
     "distinct = distinct argument tuple.",
     "explanation": "bounded-exhaustive enumeration, one generic_message call per case on a connected driver",
@@ -138,8 +140,79 @@ def tkw(transport):
     return dict(connected=False, unconnected_send=True, route_path=True)
 
 
+HIST_PATHS = ("10.0.0.1/bp/2", "10.0.0.1/bp/1/enet/10.11.12.13/bp/0", "10.0.0.1")
+
+
+def hist_ops(d):
+    gm = d.generic_message
+    base = dict(service=0x0E, class_code=0x99, instance=1, attribute=1, request_data=b"\x01")
+    ops = {
+        "gm-connected": lambda: gm(**base),
+        "gm-ucmm": lambda: gm(**base, connected=False, unconnected_send=False, route_path=False),
+        "gm-ucsend-true": lambda: gm(**base, connected=False, unconnected_send=True, route_path=True),
+        "gm-ucsend-str": lambda: gm(**base, connected=False, unconnected_send=True, route_path="bp/5"),
+        "module-info-0": lambda: d.get_module_info(0),
+        "module-info-3": lambda: d.get_module_info(3),
+        "module-info-16": lambda: d.get_module_info(16),
+        "plc-name": d.get_plc_name,
+        "plc-info": d.get_plc_info,
+        "get-time": d.get_plc_time,
+        "set-time": lambda: d.set_plc_time(1_600_000_000_123_456),
+        "set-time-0": lambda: d.set_plc_time(0),
+        "reopen": lambda: (d.close(), d.open()),
+    }
+    return ops
+
+
+def hist_observe(hist, dpath):
+    """Run the operations of `hist` in order on a fresh driver; observation of the LAST one: what the target was asked
+    (transport, service, path, data, route), the routes of connections opened meanwhile, and the result."""
+    import pycomm3
+
+    dev = LogDevice()
+    t = make_target(dev)
+    with net.World(t, io_budget=10_000_000):
+        d = pycomm3.LogixDriver(dpath, init_tags=False)
+        o = call(d.open)
+        ops = hist_ops(d)
+        obs = None
+        for name in hist:
+            dev.clock_us = 42
+            t.cip_log.clear()
+            t.fo_log.clear()
+            n_ev = len(t.events)
+            r = call(ops[name])
+            res = repr(r)[:300] if name != "reopen" else r[0]
+            obs = ([(e["transport"], e["service"], tuple(map(tuple, e["path"])), bytes(e["data"]), None if e["route"] is None else tuple(e["route"])) for e in t.cip_log],
+                   [tuple(x[:3]) for x in t.fo_log] + [("route", tuple(c.route)) for c in t.connections.values()], res, [e for e in t.events[n_ev:] if e[0].startswith(("C14", "C09", "C11"))], dev.clock_us)
+        call(d.close)
+    return o, obs
+
+
+def run_history(rep, dpath, tier):
+    names = list(hist_ops(type("D", (), {"generic_message": None, "get_module_info": None, "get_plc_name": None, "get_plc_info": None, "get_plc_time": None, "set_plc_time": None})()))
+    depth = 2 if tier == "quick" else 3
+    alone = {n: hist_observe((n,), dpath) for n in names}
+    for n, (o, obs) in alone.items():
+        rep.case(("history", dpath, n), outcome="ok" if o == ("ok", True) and not obs[3] else "bad")
+        if o != ("ok", True) or obs[3]:
+            rep.violation("history/alone", f"{n} on {dpath!r}: open {o!r:.60}, target flagged {obs[3]!r:.160}", {"case": ("history", dpath, (n,))})
+    for k in range(2, depth + 1):
+        for hist in itertools.product(names, repeat=k):
+            o, obs = hist_observe(hist, dpath)
+            want = alone[hist[-1]][1]
+            ok = obs == want
+            rep.case(("history", dpath, hist), outcome="same" if ok else "differs")
+            if not ok:
+                what = next(lbl for lbl, a, b in zip(("requests seen by the target", "forward opens", "result", "target flags", "controller clock"), obs, want) if a != b)
+                i = ("requests seen by the target", "forward opens", "result", "target flags", "controller clock").index(what)
+                rep.violation(f"history/{hist[-1]}/{what.split()[0]}", f"driver {dpath!r}: {hist[-1]} after {list(hist[:-1])}: {what} {obs[i]!r:.200}; the same call on a fresh driver: {want[i]!r:.200}",
+                              {"case": ("history", dpath, list(hist))})
+    rep.sample({"history_ops": names, "depth": depth, "driver": dpath})
+
+
 def shards(tier, seed):
-    return [("services",), ("ids", 0), ("ids", 1), ("ids", 2), ("datalen",), ("replies",), ("routes",), ("helpers",), ("status",)]
+    return [("services",), ("ids", 0), ("ids", 1), ("ids", 2), ("datalen",), ("replies",), ("routes",), ("helpers",), ("status",)] + [("history", i) for i in range(len(HIST_PATHS))]
 
 
 def describe(tier, seed):
@@ -226,6 +299,9 @@ def run_shard(shard, tier, seed):
                     want = (tr, 0x0E, path_of(0x99, 1, 1), b"", droute if tr == "ucsend" else None)
                     expect(rep, t, dev, d, kw, want, reply=(st, ext, b"\xde\xad"), sig=f"refused/{tr}", rp=("status", st, tuple(ext), tr))
         rep.sample({"statuses": "1..255", "extended": "0/1/2 words"})
+    elif k == "history":
+        run_history(rep, HIST_PATHS[shard[1]], tier)
+        return rep
     elif k == "routes":
         hops = [("bp", 3, (1, b"\x03")), ("enet", "10.11.12.13", (2, b"10.11.12.13")), (1, 0, (1, b"\x00")), ("cnet", 9, (2, b"\x09")), (2, "192.168.100.200", (2, b"192.168.100.200"))]
         for nd in range(0, 4):
@@ -338,6 +414,8 @@ def replay(r):
              "short": ("replies",), "status": ("status",)}.get(kind)
     if kind == "ids":
         shard = ("ids", TRANSPORTS.index(case[-1]))
+    elif kind == "history":
+        shard = ("history", HIST_PATHS.index(case[1]))
     elif kind.startswith("route") or kind == "fo-route":
         shard = ("routes",)
     elif shard is None:
